@@ -271,7 +271,18 @@ func (b *elBuilder) tag(s string) string {
 	return l + " " + s + " " + r
 }
 
+// lexical blocks whose tags and bodies span lines: every newline before the failing construct counts, also those INSIDE
+// the end tag of a raw or comment block (which the tokenizer finds with a pattern of its own)
+var elLexicalFrags = []string{
+	"{% raw %}a\n{{ b{% endraw\n%}", "{% comment %}\n{% if {%-\nendcomment\n\n-%}", "{%- raw\n-%}{% endraw\n\n %}", "{% comment\n%}c{%\n\nendcomment %}",
+	"{% raw %}{% endcomment\n%}\n{%\nendraw\n%}", "{% comment %}{% raw %}\n{% endcomment\n%}",
+}
+
 func (b *elBuilder) frag(ctx elCtx) {
+	if b.g.Chance(12) {
+		b.add(ctx, 'f', "", b.g.Pick(elLexicalFrags))
+		return
+	}
 	o := b.o
 	o.MaxNodes, o.MaxDepth = 1+b.g.Intn(3), 1+b.g.Intn(2)
 	b.add(ctx, 'f', "", GenFragment(b.g, o, b.sc))
